@@ -170,7 +170,7 @@ class PTable(EngineBase):
                 op = {"op": "sig", "h": rng.randrange(64), "m": m}
                 if m == "send_signal":
                     op["sig"] = rng.choice([1, 2, 9, 15, 17, 18, 19, 64, 34,
-                                            rng.randrange(1, 65)])
+                                            0, rng.randrange(0, 65)])
                 if rng.random() < 0.06:
                     # the identity re-check cannot read /proc/<pid>/stat for
                     # a reason that is neither "gone" nor "denied"
@@ -208,6 +208,8 @@ class PTable(EngineBase):
                 return {"op": "wait0", "h": rng.randrange(64)}
             return {"op": "pid_exists", "n": rng.choice(pool + [0, -1])}
         if prop == "C02":
+            if r < 0.03:
+                return {"op": "new_popen"}
             if r < 0.25:
                 op = {"op": "new", "slot": rng.randrange(64)}
                 if rng.random() < 0.10:
